@@ -266,7 +266,14 @@ auto nikolaev_queue<T, Policies...>::do_pop(SuccessFunc successFunc, EmptyFunc e
       if (!n->_allocated_queue.template dequeue<false, pop_retries>(idx, entries_per_node, remap_shift)) {
         // (7) - this acquire-load synchronizes-with (4)
         const auto next = n->_next.load(std::memory_order_acquire);
+        // _tail must not be left behind on a node that gets unlinked: a push operation could otherwise acquire
+        // a guard for it (successfully validated against a stale _tail) after it has already been retired or
+        // reclaimed. This can happen if the thread that appended next has not yet updated _tail -> help it.
         marked_ptr expected = n;
+        // this release-CAS synchronizes-with the acquire-load (1)
+        _tail.compare_exchange_strong(expected, next, std::memory_order_release, std::memory_order_relaxed);
+
+        expected = n;
         // (8) - this release-CAS synchronizes-with the acquire-load (6)
         if (_head.compare_exchange_weak(expected, next, std::memory_order_release, std::memory_order_relaxed)) {
           n.reclaim();
